@@ -36,9 +36,9 @@ package codegen
 // Row format of the parser tables (_actions, _goto): table[y] is the offset of
 // row y; a row is its length followed by (key, value) pairs.
 //@ pure func wfRow(t []int32, y int32) bool = 0 <= y && y < len(t) && 0 <= t[y] && t[y] < len(t) && t[t[y]] >= 0 && t[t[y]] % 2 == 0 && t[y] + 1 + t[t[y]] <= len(t)
-//@ pure func rowKey(t []int32, y int32, k int) int32 = t[t[y] + 1 + 2*k]
-//@ pure func rowVal(t []int32, y int32, k int) int32 = t[t[y] + 2 + 2*k]
-//@ pure func rowLen(t []int32, y int32) int = t[t[y]] / 2
+//@ opaque func rowKey(t []int32, y int32, k int) int32 = t[t[y] + 1 + 2*k]
+//@ opaque func rowVal(t []int32, y int32, k int) int32 = t[t[y] + 2 + 2*k]
+//@ opaque func rowLen(t []int32, y int32) int = t[t[y]] / 2
 //
 //@ func _Find
 //@   requires wfRow(table, y)
@@ -142,3 +142,73 @@ package codegen
 //@   loop 1 invariant unchangedOld(elems([]uint32), l.modeStack[*])
 //@   loop 1 invariant base(l.modeStack) == old(base(l.modeStack)) || fresh(l.modeStack)
 //@   loop 1 decreases end - i
+//
+// ---- parser driver -----------------------------------------------------------------
+//
+// What the driver needs from the tables (established by the generator; checked on the
+// real tables by the bounded harness): rows are well formed, shift and goto targets are
+// states, reduce entries name productions, and the ghost relation item(s, p, d)
+// ("state s contains production p with the dot at d") satisfies the LR conditions
+// I0-I3 below. From them the stack invariant lrStack follows, which is what makes
+// Pop(termCount), Peek(0) and the goto lookup after a reduction safe.
+//
+//@ ghost func nStates() int
+//@ ghost func item(s int32, p int32, d int) bool
+//@ opaque func validState(s int32) bool = 0 <= s && s < nStates() && wfRow(_actions, s) && wfRow(_goto, s)
+//@ opaque func validProd(p int32) bool = 0 < p && p < 2147483647 && p < len(_termCounts) && len(_rules) == len(_termCounts) && _termCounts[p] >= 0
+//@ opaque func wfActionsRow(s int32) bool = forall k int :: {rowVal(_actions, s, k)} 0 <= k && k < rowLen(_actions, s) ==> ((rowVal(_actions, s, k) == 2147483647 ==> rowKey(_actions, s, k) == 0) && (0 <= rowVal(_actions, s, k) && rowVal(_actions, s, k) < 2147483647 ==> validState(rowVal(_actions, s, k)) && (forall p int32, d int :: {item(rowVal(_actions, s, k), p, d)} d > 0 && item(rowVal(_actions, s, k), p, d) ==> item(s, p, d - 1))) && (rowVal(_actions, s, k) < 0 ==> validProd(0 - rowVal(_actions, s, k)) && item(s, 0 - rowVal(_actions, s, k), _termCounts[0 - rowVal(_actions, s, k)])))
+//@ opaque func wfGotoRow(s int32) bool = (forall k int :: {rowVal(_goto, s, k)} 0 <= k && k < rowLen(_goto, s) ==> validState(rowVal(_goto, s, k)) && (forall p int32, d int :: {item(rowVal(_goto, s, k), p, d)} d > 0 && item(rowVal(_goto, s, k), p, d) ==> item(s, p, d - 1))) && (forall p int32 :: {item(s, p, 0)} item(s, p, 0) && validProd(p) ==> exists k int :: 0 <= k && k < rowLen(_goto, s) && rowKey(_goto, s, k) == _rules[p])
+//@ opaque func wfTables() bool = 1 <= nStates() && validState(0) && (forall p int32, d int :: {item(0, p, d)} item(0, p, d) ==> d == 0) && (forall s int32 :: {validState(s)} validState(s) ==> wfActionsRow(s) && wfGotoRow(s))
+//
+//@ pure func lrStack(st _Stack[_item]) bool = len(st) >= 1 && (forall k int :: {st[k]} 0 <= k && k < len(st) ==> validState(st[k].State)) && (forall k int, p int32, d int :: {item(st[k].State, p, d)} 0 <= k && k < len(st) && item(st[k].State, p, d) ==> 0 <= d && d <= k && item(st[k - d].State, p, 0))
+//   the lookahead symbol is a Token, or an Error exactly when the lookahead is ERROR
+//@ pure func laOK(la int, sym any) bool = la >= 0 && (la == ERROR ==> typeis(sym, Error)) && (la != ERROR ==> typeis(sym, Token))
+//
+//@ func _Lexer.ReadToken
+//@   trusted
+//@   ensures result1 >= 0
+//
+// user action methods (on_<rule>...) may queue a lookahead through recoverLookahead and
+// touch the user's own fields; they leave the parse stack and the lexer alone.
+//@ func @.on_*
+//@   trusted
+//@   requires true
+//
+//@ func @._makeError
+//@   requires !isnil(p) && typeis(p._lasym, Token) && wfTables() && len(p._stack) >= 1 && validState(p._stack[len(p._stack) - 1].State)
+//@   ensures result.Token == unbox(p._lasym, Token)
+//@   let s = p._stack[len(p._stack) - 1].State
+//@   loop 0 invariant p == old(p) && end == _actions[s] + 1 + _actions[_actions[s]] && _actions[s] + 1 <= i && i <= end && (i - _actions[s] - 1) % 2 == 0 && unchangedOld(fields(fxParser)) && unchangedOld(elems(int32)) && unchangedOld(elems(_item))
+//@   loop 0 invariant (cap(e.Expected) == 0 || fresh(e.Expected)) && unchangedOld(elems(int)) && e.Token == unbox(old(p._lasym), Token)
+//@   loop 0 decreases end - i
+//
+//@ func @._readToken
+//@   requires !isnil(p) && !isnil(p._lex) && wfTables() && len(p._stack) >= 1 && validState(p._stack[len(p._stack) - 1].State)
+//@   requires p._qla != -1 ==> laOK(p._qla, p._qlasym)
+//@   ensures laOK(p._la, p._lasym) && p._stack == old(p._stack) && p._lex == old(p._lex)
+//@   ensures p._qla == -1 || (p._qla == old(p._qla) && p._qlasym == old(p._qlasym))
+//@   modifies p._la, elems(int)
+//@   call ReadToken 0 assume true
+//
+//@ func @.recoverLookahead
+//@   requires !isnil(p) && p._qla == -1 && typ != ERROR && typ >= 0
+//@   requires laOK(p._la, p._lasym)
+//@   ensures laOK(p._la, p._lasym) && laOK(p._qla, p._qlasym) && p._stack == old(p._stack) && p._lex == old(p._lex)
+//@   modifies p._la
+//
+//@ func @._recover
+//@   requires !isnil(p) && !isnil(p._lex) && wfTables() && lrStack(p._stack) && p._stack[0].State == 0
+//@   requires laOK(p._la, p._lasym) && (p._qla == -1 || laOK(p._qla, p._qlasym))
+//@   ensures result ==> lrStack(p._stack)
+//@   ensures result ==> p._stack[0].State == 0
+//@   ensures result ==> laOK(p._la, p._lasym)
+//@   ensures result ==> laOK(p._qla, p._qlasym) && p._qla != -1
+//@   ensures p._lex == old(p._lex)
+//@   modifies p._la, elems(int)
+//@   let okStack = lrStack(p._stack) && p._stack[0].State == 0 && (p._qla == -1 || laOK(p._qla, p._qlasym))
+//@   loop 0 invariant p == old(p) && !isnil(p._lex) && p._lex == old(p._lex) && okStack && laOK(p._la, p._lasym) && unchangedOld(elems(_item)) && unchangedOld(elems(int32)) && unchangedOld(fields(fxParser), *p)
+//@   loop 1 invariant p == old(p) && !isnil(p._lex) && p._lex == old(p._lex) && okStack && laOK(p._la, p._lasym) && unchangedOld(elems(_item)) && unchangedOld(elems(int32)) && unchangedOld(fields(fxParser), *p)
+//@   loop 2 invariant p == old(p) && !isnil(p._lex) && p._lex == old(p._lex) && lrStack(save) && save[0].State == 0 && (p._qla == -1 || laOK(p._qla, p._qlasym)) && laOK(p._la, p._lasym) && unchangedOld(elems(_item)) && unchangedOld(elems(int32)) && unchangedOld(fields(fxParser), *p)
+//@   loop 2 invariant base(p._stack) == base(save) && off(p._stack) == off(save) && len(p._stack) <= len(save) && cap(p._stack) == cap(save) && (forall k int :: {p._stack[k]} 0 <= k && k < len(p._stack) ==> p._stack[k] == save[k])
+//@   loop 3 invariant p == old(p) && !isnil(p._lex) && p._lex == old(p._lex) && lrStack(save) && save[0].State == 0 && (p._qla == -1 || laOK(p._qla, p._qlasym)) && laOK(p._la, p._lasym) && unchangedOld(elems(_item)) && unchangedOld(elems(int32)) && unchangedOld(fields(fxParser), *p)
+//@   loop 3 invariant base(p._stack) == base(save) && off(p._stack) == off(save) && 1 <= len(p._stack) && len(p._stack) <= len(save) && cap(p._stack) == cap(save) && validState(state) && (forall k int :: {p._stack[k]} 0 <= k && k < len(p._stack) ==> p._stack[k] == save[k])
